@@ -20,7 +20,8 @@ open Hv.Cap
 /-- The full-strength statement. -/
 structure Holds (cfg : Cfg) : Prop where
   /-- `cap_inv` -/
-  capInv : ∀ recs present max as s, recs.count true ≤ max → run cfg (initP recs present max) as = some s → matching s ≤ max
+  capInv : ∀ recs present expiring max as s, recs.count true ≤ max →
+      run cfg (initE recs present expiring max) as = some s → matching s ≤ max
   /-- `four_cell`: the budget is decremented iff the patch moves the record from not-matching to
       matching (and there is budget); exactly that cell is rejected when the budget is 0 -/
   fourCell : ∀ budget pre post,
@@ -28,9 +29,9 @@ structure Holds (cfg : Cfg) : Prop where
       ((fourCell budget pre post).2 = none ↔ (pre = false ∧ post = true ∧ budget = 0)) ∧
       (∀ v, (fourCell budget pre post).2 = some v → v = post)
 
-theorem max_const (cfg : Cfg) (recs present : List Bool) (max : Nat) (as : List Act) (s : St)
-    (h : run cfg (initP recs present max) as = some s) : s.max = max := by
-  refine LTS.inv_run (step cfg) (fun s => s.max = max) ?_ (initP recs present max) as s rfl h
+theorem max_const (cfg : Cfg) (recs present expiring : List Bool) (max : Nat) (as : List Act) (s : St)
+    (h : run cfg (initE recs present expiring max) as = some s) : s.max = max := by
+  refine LTS.inv_run (step cfg) (fun s => s.max = max) ?_ (initE recs present expiring max) as s rfl h
   intro s a s' hm hs
   cases a <;> simp only [step] at hs <;> (repeat' split at hs) <;> simp at hs <;>
     first
@@ -49,12 +50,12 @@ theorem four_cell (budget : Nat) (pre post : Bool) :
 
 /-- `cap_inv`: with the count taken under capMu the number of matching records never exceeds
     the cap, for all contents, caps, batches and interleavings. -/
-theorem cap_inv (recs present : List Bool) (max : Nat) (as : List Act) (s : St)
-    (h0 : recs.count true ≤ max) (h : run good (initP recs present max) as = some s) : matching s ≤ max := by
+theorem cap_inv (recs present expiring : List Bool) (max : Nat) (as : List Act) (s : St)
+    (h0 : recs.count true ≤ max) (h : run good (initE recs present expiring max) as = some s) : matching s ≤ max := by
   have hi : Inv s := LTS.inv_run (step good) Inv (fun s a s' hi hs => inv_step s a s' hi hs)
-    (initP recs present max) as s (inv_initP recs present max h0) h
+    (initE recs present expiring max) as s (inv_initE recs present expiring max h0) h
   have := hi.bound
-  rw [max_const good recs present max as s h] at this
+  rw [max_const good recs present expiring max as s h] at this
   omega
 
 theorem holds_good : Holds good := ⟨cap_inv, four_cell⟩
@@ -74,19 +75,20 @@ def witness : List Act :=
   [.submit 0 [(0, true)], .submit 1 [(1, true)], .first 0, .first 1,
    .second 0, .patch 0, .unlock 0, .second 1, .patch 1, .unlock 1]
 
-theorem witness_overshoots (c e : Bool) :
-    (run { countAfterLock := false, createPreFalse := c, expiredHoldsCapMu := e } (init [false, false] 1) witness).map
+theorem witness_overshoots (c e x : Bool) :
+    (run { countAfterLock := false, createPreFalse := c, expiredHoldsCapMu := e, expiredCountsAll := x } (init [false, false] 1) witness).map
       (fun s => (matching s, (s.batch 0).rejected, (s.batch 1).rejected)) = some (2, 0, 0) := by
-  cases c <;> cases e <;> decide
+  cases c <;> cases e <;> cases x <;> decide
 
-theorem refutes_countFirst (c e : Bool) : ¬ Holds { countAfterLock := false, createPreFalse := c, expiredHoldsCapMu := e } := by
+theorem refutes_countFirst (c e x : Bool) :
+    ¬ Holds { countAfterLock := false, createPreFalse := c, expiredHoldsCapMu := e, expiredCountsAll := x } := by
   intro h
-  cases hs : run { countAfterLock := false, createPreFalse := c, expiredHoldsCapMu := e } (init [false, false] 1) witness with
-  | none => have := witness_overshoots c e; simp [hs] at this
+  cases hs : run { countAfterLock := false, createPreFalse := c, expiredHoldsCapMu := e, expiredCountsAll := x } (init [false, false] 1) witness with
+  | none => have := witness_overshoots c e x; simp [hs] at this
   | some s =>
-    have hw := witness_overshoots c e
+    have hw := witness_overshoots c e x
     simp [hs] at hw
-    have := h.capInv [false, false] [true, true] 1 witness s (by decide) hs
+    have := h.capInv [false, false] [true, true] [true, true] 1 witness s (by decide) hs
     omega
 
 /-- the pre-state of a create taken from the seed: one batch, cap 1, two absent keys, a seed that
@@ -94,19 +96,20 @@ theorem refutes_countFirst (c e : Bool) : ¬ Holds { countAfterLock := false, cr
 def witnessCreate : List Act :=
   [.submitCreate 0 [(0, true), (1, true)] true, .first 0, .second 0, .patch 0, .patch 0, .unlock 0]
 
-theorem witness_create_overshoots (a e : Bool) :
-    (run { countAfterLock := a, createPreFalse := false, expiredHoldsCapMu := e } (initP [false, false] [false, false] 1) witnessCreate).map
+theorem witness_create_overshoots (a e x : Bool) :
+    (run { countAfterLock := a, createPreFalse := false, expiredHoldsCapMu := e, expiredCountsAll := x } (initP [false, false] [false, false] 1) witnessCreate).map
       (fun s => (matching s, (s.batch 0).rejected)) = some (2, 0) := by
-  cases a <;> cases e <;> decide
+  cases a <;> cases e <;> cases x <;> decide
 
-theorem refutes_createFromSeed (a e : Bool) : ¬ Holds { countAfterLock := a, createPreFalse := false, expiredHoldsCapMu := e } := by
+theorem refutes_createFromSeed (a e x : Bool) :
+    ¬ Holds { countAfterLock := a, createPreFalse := false, expiredHoldsCapMu := e, expiredCountsAll := x } := by
   intro h
-  cases hs : run { countAfterLock := a, createPreFalse := false, expiredHoldsCapMu := e } (initP [false, false] [false, false] 1) witnessCreate with
-  | none => have := witness_create_overshoots a e; simp [hs] at this
+  cases hs : run { countAfterLock := a, createPreFalse := false, expiredHoldsCapMu := e, expiredCountsAll := x } (initP [false, false] [false, false] 1) witnessCreate with
+  | none => have := witness_create_overshoots a e x; simp [hs] at this
   | some s =>
-    have hw := witness_create_overshoots a e
+    have hw := witness_create_overshoots a e x
     simp [hs] at hw
-    have := h.capInv [false, false] [false, false] 1 witnessCreate s (by decide) hs
+    have := h.capInv [false, false] [false, false] [true, true] 1 witnessCreate s (by decide) hs
     omega
 
 /-- PatchExpired releasing capMu after its select step: cap 2, four expired candidates; A selects
@@ -115,20 +118,50 @@ def witnessExpired : List Act :=
   [.submitExpired 0 [0, 1, 2, 3], .submitExpired 1 [2, 3, 0, 1], .first 0, .second 0, .unlockEarly 0,
    .first 1, .second 1, .patch 0, .patch 0, .patch 1, .patch 1, .unlock 0, .unlock 1]
 
-theorem witness_expired_overshoots (a c : Bool) :
-    (run { countAfterLock := a, createPreFalse := c, expiredHoldsCapMu := false } (init [false, false, false, false] 2) witnessExpired).map
+theorem witness_expired_overshoots (a c x : Bool) :
+    (run { countAfterLock := a, createPreFalse := c, expiredHoldsCapMu := false, expiredCountsAll := x } (init [false, false, false, false] 2) witnessExpired).map
       (fun s => matching s) = some 4 := by
-  cases a <;> cases c <;> decide
+  cases a <;> cases c <;> cases x <;> decide
 
-theorem refutes_expiredEarlyUnlock (a c : Bool) : ¬ Holds { countAfterLock := a, createPreFalse := c, expiredHoldsCapMu := false } := by
+theorem refutes_expiredEarlyUnlock (a c x : Bool) :
+    ¬ Holds { countAfterLock := a, createPreFalse := c, expiredHoldsCapMu := false, expiredCountsAll := x } := by
   intro h
-  cases hs : run { countAfterLock := a, createPreFalse := c, expiredHoldsCapMu := false } (init [false, false, false, false] 2) witnessExpired with
-  | none => have := witness_expired_overshoots a c; simp [hs] at this
+  cases hs : run { countAfterLock := a, createPreFalse := c, expiredHoldsCapMu := false, expiredCountsAll := x } (init [false, false, false, false] 2) witnessExpired with
+  | none => have := witness_expired_overshoots a c x; simp [hs] at this
   | some s =>
-    have hw := witness_expired_overshoots a c
+    have hw := witness_expired_overshoots a c x
     simp [hs] at hw
-    have := h.capInv [false, false, false, false] [true, true, true, true] 2 witnessExpired s (by decide) hs
+    have := h.capInv [false, false, false, false] [true, true, true, true] [true, true, true, true] 2 witnessExpired s (by decide) hs
     omega
+
+/-- PatchExpired counting over the expiration-time index only: cap 1; r0 matches the filter and
+    carries no expiry (a record created by a cap-bearing PatchTreasures), r1 is idle and expired.
+    One sequential `PatchExpired` counts 0 matching records, takes a budget of 1 and moves r1
+    into the filter: two records match.  No concurrency is needed. -/
+def witnessIndexOnly : List Act :=
+  [.submitExpired 0 [1], .first 0, .second 0, .patch 0, .unlock 0]
+
+theorem witness_indexOnly_overshoots (a c e : Bool) :
+    (run { countAfterLock := a, createPreFalse := c, expiredHoldsCapMu := e, expiredCountsAll := false }
+        (initE [true, false] [true, true] [false, true] 1) witnessIndexOnly).map
+      (fun s => (matching s, (s.batch 0).counted)) = some (2, 0) := by
+  cases a <;> cases c <;> cases e <;> decide
+
+theorem refutes_expiredCountsIndexOnly (a c e : Bool) :
+    ¬ Holds { countAfterLock := a, createPreFalse := c, expiredHoldsCapMu := e, expiredCountsAll := false } := by
+  intro h
+  cases hs : run { countAfterLock := a, createPreFalse := c, expiredHoldsCapMu := e, expiredCountsAll := false }
+      (initE [true, false] [true, true] [false, true] 1) witnessIndexOnly with
+  | none => have := witness_indexOnly_overshoots a c e; simp [hs] at this
+  | some s =>
+    have hw := witness_indexOnly_overshoots a c e
+    simp [hs] at hw
+    have := h.capInv [true, false] [true, true] [false, true] 1 witnessIndexOnly s (by decide) hs
+    omega
+
+/-- with the count over all records the same call selects nothing: the budget is 0 -/
+example : (run good (initE [true, false] [true, true] [false, true] 1) [.submitExpired 0 [1], .first 0, .second 0, .unlock 0]).map
+    (fun s => (matching s, (s.batch 0).counted, (s.batch 0).todo.length)) = some (1, 1, 0) := by decide
 
 /-- `_partial`: the four-cell rule holds whatever the order of count and lock. -/
 theorem holds_partial : ∀ budget pre post,
@@ -159,6 +192,11 @@ structure Facts where
   expiredSelectWithinBudget : Tri
   /-- ShiftMatching counts and selects under one `b.mu.Lock()`; CloneAndDeleteMatchingTreasures holds capMu -/
   shiftCountsUnderLock : Tri
+  /-- PatchExpired: the cap handed to `SelectExpiredForPatchWithCap` (which counts over the expiration-time
+      index it is called on) is first reduced by the matching records that are NOT in that index
+      (`s.beaconKey.CountMatching(capPredicate) - s.expirationTimeBeaconASC.CountMatching(capPredicate)`);
+      `no`: `int(capMax)` is passed through unchanged -/
+  expiredCountsAll : Tri
   deriving Repr
 
 def structural (f : Facts) : Bool :=
@@ -170,16 +208,17 @@ def triBool : Tri → Option Bool
 
 def classify (f : Facts) : Verdict :=
   if !structural f then .undetermined "the cap path no longer has the modelled shape" else
-  match triBool f.countAfterLock, triBool f.createPreFalse, triBool f.expiredHoldsCapMu with
-  | some true, some true, some true => .holds
-  | some a, some c, some e =>
+  match triBool f.countAfterLock, triBool f.createPreFalse, triBool f.expiredHoldsCapMu, triBool f.expiredCountsAll with
+  | some true, some true, some true, some true => .holds
+  | some a, some c, some e, some x =>
     .violated ((if a then [] else ["C12-count-before-capmu"]) ++ (if c then [] else ["C12-create-counts-as-prematched"]) ++
-               (if e then [] else ["C12-patchexpired-releases-capmu-early"]))
-  | _, _, _ => .undetermined "cap.countAfterLock / cap.createPreFalse / cap.expiredHoldsCapMu"
+               (if e then [] else ["C12-patchexpired-releases-capmu-early"]) ++
+               (if x then [] else ["C12-patchexpired-counts-expiring-records-only"]))
+  | _, _, _, _ => .undetermined "cap.countAfterLock / cap.createPreFalse / cap.expiredHoldsCapMu / cap.expiredCountsAll"
 
 def cfgOf (f : Facts) : Cfg :=
   { countAfterLock := (triBool f.countAfterLock).getD false, createPreFalse := (triBool f.createPreFalse).getD false,
-    expiredHoldsCapMu := (triBool f.expiredHoldsCapMu).getD false }
+    expiredHoldsCapMu := (triBool f.expiredHoldsCapMu).getD false, expiredCountsAll := (triBool f.expiredCountsAll).getD false }
 
 theorem classify_sound (f : Facts) : (classify f).Sound (Holds (cfgOf f)) := by
   unfold classify
@@ -194,14 +233,16 @@ theorem classify_sound (f : Facts) : (classify f).Sound (Holds (cfgOf f)) := by
         cases he : triBool f.expiredHoldsCapMu with
         | none => simp [Verdict.Sound]
         | some e =>
-          cases a <;> cases c <;> cases e <;> simp only [Verdict.Sound, cfgOf, ha, hc, he, Option.getD]
-          · exact ⟨refutes_countFirst _ _, trivial⟩
-          · exact ⟨refutes_countFirst _ _, trivial⟩
-          · exact ⟨refutes_countFirst _ _, trivial⟩
-          · exact ⟨refutes_countFirst _ _, trivial⟩
-          · exact ⟨refutes_createFromSeed _ _, trivial⟩
-          · exact ⟨refutes_createFromSeed _ _, trivial⟩
-          · exact ⟨refutes_expiredEarlyUnlock _ _, trivial⟩
-          · exact holds_good
+          cases hx : triBool f.expiredCountsAll with
+          | none => simp [Verdict.Sound]
+          | some x =>
+            cases a <;> cases c <;> cases e <;> cases x <;>
+              simp only [Verdict.Sound, cfgOf, ha, hc, he, hx, Option.getD] <;>
+              first
+                | exact holds_good
+                | exact ⟨refutes_countFirst _ _ _, trivial⟩
+                | exact ⟨refutes_createFromSeed _ _ _, trivial⟩
+                | exact ⟨refutes_expiredEarlyUnlock _ _ _, trivial⟩
+                | exact ⟨refutes_expiredCountsIndexOnly _ _ _, trivial⟩
 
 end Hv.C12
